@@ -466,6 +466,13 @@ func runCase(c *kit.Case) {
 	ready := waitFor(func() bool {
 		for _, cs := range s.specs {
 			if cs.client.Load() == nil {
+				select {
+				case <-cs.done:
+					// the request already ended (failed before any response, or the server
+					// refused it): nothing to wait for on this connection
+					continue
+				default:
+				}
 				return false
 			}
 		}
@@ -641,6 +648,17 @@ func bucketBatch(n int) string {
 func (s *scen) evaluate(cs *connSpec) string {
 	c := s.c
 	cl := cs.client.Load()
+	if cl == nil && len(cs.body) == 0 {
+		// HTTP 200 and then nothing: the handler gave up before it processed the connect command
+		// (the SSE handler's first write has a 1 s deadline, which an overloaded machine misses);
+		// this connection exercised nothing.
+		c.Count("conn_ended_before_connect_was_processed", 1)
+		return cs.kind + ":never-connected"
+	}
+	if cl == nil {
+		c.Inconclusive(fmt.Sprintf("conn %s: HTTP 200 but the connection never reached OnConnect (%d stream bytes)", cs.kind, len(cs.body)))
+		return cs.kind + ":never-connected"
+	}
 	s.logMu.Lock()
 	log := append([]logged(nil), s.log[cl.ID()]...)
 	s.logMu.Unlock()
